@@ -297,6 +297,16 @@ func NewOpLib() *OpLib {
 	l.Add("swap_in_2hop_elys_atom_L", "swap", 0, func(w *World, p *BlockPlan) {
 		p.Txs = one("t1", swapIn(w.A("t1"), "", C("uelys", 1e10), 1, rin(2, "uusdc"), rin(1, "uatom")))
 	})
+	// routes that name the SAME pool in two hops (accepted by route validation)
+	l.Add("swap_in_samepool_p1_usdc_atom_usdc", "swap", 0, func(w *World, p *BlockPlan) {
+		p.Txs = one("t1", swapIn(w.A("t1"), "", C("uusdc", 2e10), 1, rin(1, "uatom"), rin(1, "uusdc")))
+	})
+	l.Add("swap_in_samepool_p2_elys_usdc_elys", "swap", 0, func(w *World, p *BlockPlan) {
+		p.Txs = one("t2", swapIn(w.A("t2"), "", C("uelys", 1e10), 1, rin(2, "uusdc"), rin(2, "uelys")))
+	})
+	l.Add("swap_out_samepool_p2_usdc_elys_usdc", "swap", 0, func(w *World, p *BlockPlan) {
+		p.Txs = one("t2", swapOut(w.A("t2"), "", C("uusdc", 1e9), 1e14, rout(2, "uusdc"), rout(2, "uelys")))
+	})
 	l.Add("swap_out_2hop_atom_elys_L", "swap", 0, func(w *World, p *BlockPlan) {
 		p.Txs = one("t2", swapOut(w.A("t2"), "", C("uelys", 1e9), 1e14, rout(1, "uatom"), rout(2, "uusdc")))
 	})
